@@ -136,7 +136,8 @@ impl ValidatorAsync for CheckLuaValidator {
                 serde_json::json!({"v": "check-lua", "class": match &task_result {
                     Ok(Ok(None)) => "nil", Ok(Ok(Some(_))) => "str", Ok(Err(_)) => "err", Err(_) => "panic" },
                     "file": match &task_result { Ok(Ok(Some((f, _)))) => Some(f.clone()), _ => None },
-                    "line": match &task_result { Ok(Ok(Some((_, v)))) => Some(v.range.start.line), _ => None }}),
+                    "line": match &task_result { Ok(Ok(Some((_, v)))) => Some(v.range.start.line), _ => None },
+                    "sev": match &task_result { Ok(Ok(Some((_, v)))) => Some(v.severity as u8), _ => None }}),
             );
             match task_result.context("check-lua task failed")? {
                 Ok(None) => continue,
